@@ -1278,7 +1278,12 @@ func g33SpellableCastType(r *Repo, rep *Report) {
 			if fn == nil {
 				return true
 			}
-			if fn.Name() == "Exported" || fn.Name() == "IsExported" {
+			// the exportedness of a *type name* (types.Object.Exported, or IsExported of an object's name) — not the
+			// exportedness of the field's own name, which Field.Private looks at
+			if sig, _ := fn.Type().(*types.Signature); fn.Name() == "Exported" && sig != nil && sig.Recv() != nil && fn.Pkg() != nil && fn.Pkg().Path() == "go/types" {
+				consults = true
+			}
+			if fn.Name() == "IsExported" && len(c.Args) == 1 && strings.Contains(exprStr(c.Args[0]), "Obj()") {
 				consults = true
 			}
 			if fn.Name() == "TypeString" {
@@ -1291,18 +1296,16 @@ func g33SpellableCastType(r *Repo, rep *Report) {
 			return true
 		})
 	}
-	// only the type-string closures, not Field.Private (which looks at the exportedness of the field's *name*)
-	ast.Inspect(fi.Decl.Body, func(m ast.Node) bool {
-		if lit, ok := m.(*ast.FuncLit); ok {
-			visit(lit.Body, fi.Pkg.TypesInfo, 0)
-			return false
-		}
-		return true
-	})
+	// where the text of the cast type is made: derive.Fields (with its closures) and (*Field).Name, which prints the cast,
+	// each with the functions of package derive they call
+	visit(fi.Decl.Body, fi.Pkg.TypesInfo, 0)
+	if nm := r.lookup("derive.(*Field).Name"); nm != nil {
+		visit(nm.Decl.Body, nm.Pkg.TypesInfo, 0)
+	}
 	rep.analysed("cast_type_spellings", spells)
 	switch {
 	case spells == 0:
-		rep.fail(Finding{Rule: "G33", Key: "G33|cast-type|floor", Kind: "undecided", Where: []string{r.pos(fi.Decl.Pos())}, Msg: "derive.Fields no longer computes the text of a field's type in a closure (confirmed by hand)"})
+		rep.fail(Finding{Rule: "G33", Key: "G33|cast-type|floor", Kind: "undecided", Where: []string{r.pos(fi.Decl.Pos())}, Msg: "neither derive.Fields nor (*Field).Name (nor what they call in package derive) asks for the text of a field's type (confirmed by hand)"})
 	case consults:
 		rep.pass("G33")
 	default:
